@@ -6,6 +6,7 @@ import (
 	"fmt"
 	"net/netip"
 	"os"
+	"path/filepath"
 
 	"github.com/mycoria/mycoria/mgr"
 )
@@ -70,9 +71,39 @@ func (s *JSONFileStorage) Stop() error {
 	if err != nil {
 		return fmt.Errorf("failed to marshal json storage: %w", err)
 	}
-	err = os.WriteFile(s.filename, data, 0o0644) //nolint:gosec // no secrets
+	err = writeFileAtomic(s.filename, data, 0o0644) //nolint:gosec // no secrets
 	if err != nil {
 		return fmt.Errorf("failed to write json storage to %s: %w", s.filename, err)
+	}
+	return nil
+}
+
+// writeFileAtomic writes the data to a temporary file in the same directory and
+// then moves it into place, so that a crash at any point leaves either the
+// complete previous file or the complete new file.
+func writeFileAtomic(filename string, data []byte, perm os.FileMode) error {
+	tmp, err := os.CreateTemp(filepath.Dir(filename), filepath.Base(filename)+".tmp-*")
+	if err != nil {
+		return err
+	}
+	tmpName := tmp.Name()
+
+	_, err = tmp.Write(data)
+	if err == nil {
+		err = tmp.Chmod(perm)
+	}
+	if err == nil {
+		err = tmp.Sync()
+	}
+	if closeErr := tmp.Close(); err == nil {
+		err = closeErr
+	}
+	if err == nil {
+		err = os.Rename(tmpName, filename)
+	}
+	if err != nil {
+		_ = os.Remove(tmpName)
+		return err
 	}
 	return nil
 }
